@@ -29,6 +29,8 @@ class SimDisk(object):
         self.eio = {}            # name -> number of characters delivered before EIO (one shot)
         self.reads = 0
         self.eio_fired = 0       # number of reads on which the armed fault actually raised
+        self.swap = {}           # name -> bytes|None: content that replaces the file right after its next read-open (one shot)
+        self.swaps_fired = 0
         self._old_open = None
         self.seam = None
 
@@ -74,6 +76,19 @@ class SimDisk(object):
                 self.ctx.fault('write_' + fault)
         return data
 
+    def replace_now(self, name, data):
+        p = self.path(name)
+        if data is None:
+            self.files.pop(name, None)
+            if os.path.exists(p):
+                os.unlink(p)
+            return
+        tmp = p + '.new'
+        with open(tmp, 'wb') as f:
+            f.write(data)
+        os.replace(tmp, p)
+        self.files[name] = data
+
     def delete(self, name):
         self.files.pop(name, None)
         p = self.path(name)
@@ -117,6 +132,14 @@ class SimDisk(object):
             disk.reads += 1
             if disk.ctx is not None:
                 disk.ctx.tick()
+            if name in disk.swap:
+                # the file is replaced (atomically, by rename) between this open and whatever the reader does next: the handle
+                # just returned keeps delivering the old content, any later open sees the new one
+                new = disk.swap.pop(name)
+                disk.replace_now(name, new)
+                disk.swaps_fired += 1
+                if disk.ctx is not None:
+                    disk.ctx.fault('replaced_between_opens')
             if name in disk.eio:
                 n = disk.eio.pop(name)
                 if disk.ctx is not None:
